@@ -571,6 +571,14 @@ _dispatch_event_merge_fd(dispatch_muxnote_t dmn, uint32_t events)
 	dispatch_unote_linkage_t dul, dul_next;
 	uintptr_t data;
 
+	// EPOLLERR is unmaskable like EPOLLHUP (for instance the write end of a full
+	// pipe whose reader went away): report it as readiness of the registered
+	// directions so that the pending read() or write() picks the error up,
+	// instead of rearming for ever without telling anyone.
+	if (events & EPOLLERR) {
+		events |= dmn->dmn_events & (EPOLLIN | EPOLLOUT);
+	}
+
 	dmn->dmn_disarmed_events |= (events & (EPOLLIN | EPOLLOUT));
 
 	if (events & EPOLLIN) {
